@@ -195,12 +195,17 @@ func c10one(t *testing.T, out *verifh.Out, r *rand.Rand, dir string) {
 		} else if fault && r.Intn(5) == 0 {
 			// a coordination write fails while a host that claims to be master is being dealt with: the list update that
 			// belongs to marking it for recovery
+			// (only when exactly one host claims to be master: the failing write then belongs to that host, whatever the
+			// order of the pass)
+			var stale []string
 			for _, h := range hosts[1:] {
 				if wd.Nodes[h].Repl == nil && wd.Nodes[h].Alive {
-					fh, fo, fkind = h, "dcs_set_active_nodes", "dcs"
-					wd.AddFault("dcs:active_nodes", "set", 1, "err")
-					break
+					stale = append(stale, h)
 				}
+			}
+			if len(stale) == 1 {
+				fh, fo, fkind = stale[0], "dcs_set_active_nodes", "dcs"
+				wd.AddFault("dcs:active_nodes", "set", 1, "err")
 			}
 		} else if fault && r.Intn(2) == 0 {
 			fh = hosts[1+r.Intn(n-1)]
